@@ -69,9 +69,9 @@ Aberrations == {"none", "defocus", "cs_defocus", "astigmatism", "coma", "all"}
 Scans == {"custom", "outside", "grid", "line", "wide"}
 (* ctf_cutoff: the CTF handed to the reduction states the aperture, or leaves it unset (then the S-matrix' own cutoff is the probe's)  *)
 (* history: the SMatrix object is fresh, or was inspected (len, wave_vectors, shape) with other parameters and then edited through    *)
-(* its setters (semiangle_cutoff, potential) before the reduction: the equivalent probe is that of the parameters at reduction time   *)
+(* its setters (semiangle_cutoff, potential, energy) before the reduction, or the CTF object was used before for an S-matrix at another energy: the equivalent probe is that of the parameters at reduction time   *)
 Init == /\ \E p \in Potentials, ab \in Aberrations, sc \in Scans, f1 \in 1..3, f2 \in 1..2, ds \in BOOLEAN, lz \in BOOLEAN, b1 \in BOOLEAN,
-              cc \in {"given", "unset"}, h \in {"fresh", "edited_cutoff", "edited_potential"} :
+              cc \in {"given", "unset"}, h \in {"fresh", "edited_cutoff", "edited_potential", "edited_energy", "ctf_reused"} :
              /\ (h # "fresh" => cc = "given") /\ (h = "edited_potential" => p # "none")
              /\ c = [potential |-> p, aberrations |-> ab, scan |-> sc, f1 |-> f1, f2 |-> f2, downsample |-> ds, lazy |-> lz, batch_one |-> b1,
                      ctf_cutoff |-> cc, history |-> h]
